@@ -25,7 +25,8 @@ Without(q, e) == SelectSeq(q, LAMBDA x : x # e)
     ip = [t \in Threads |-> 1],
     ret = [t \in Threads |-> -1],         \* value returned by the last add / value / wait
     \* ghosts
-    everzero = (V0 = 0);                  \* the counter has been zero
+    everzero = (V0 = 0),                  \* the counter has been zero
+    freed = FALSE;                        \* nsync_counter_free has returned: the counter's memory is gone
 
   define { CurOp(t) == Prog[t][ip[t]] }
 
@@ -78,6 +79,13 @@ Without(q, e) == SelectSeq(q, LAMBDA x : x # e)
    cv_1_ld:  ret[self] := value; return;                                      \* counter.c:89 ATM_LOAD_ACQ
   }
 
+  \* nsync_counter_free (counter.c:45-50): the lock is taken and released once so that whoever is still inside an operation has left
+  procedure cfree()
+  {
+   cf_1_lk:  await lockh = 0; lockh := self;                                  \* counter.c:46
+   cf_2_ul:  lockh := 0; freed := TRUE; ret[self] := 0; return;               \* counter.c:48-49 unlock; free (c)
+  }
+
   procedure cnew()
   {
    cn_1_st:  ret[self] := 1; return;                                          \* counter.c:40 ATM_STORE (&c->value, value) of the fresh counter
@@ -93,6 +101,7 @@ Without(q, e) == SelectSeq(q, LAMBDA x : x # e)
            ip[self] := ip[self] + 1;
            if (CurOp(self).x = 1) { ret[self] := 0; } else { call cnew(); };   \* NULL; the counter under test is untouched
          }
+         else if (CurOp(self).op = "free") { ip[self] := ip[self] + 1; call cfree(); }
          else if (CurOp(self).op = "wait") { ip[self] := ip[self] + 1; call cwait(CurOp(self).dl); }
          else { ip[self] := ip[self] + 1; };
        };
@@ -101,7 +110,7 @@ Without(q, e) == SelectSeq(q, LAMBDA x : x # e)
 \* BEGIN TRANSLATION
 CONSTANT defaultInitValue
 VARIABLES pc, value, waited, cwaiters, lockh, nww, sem, now, ip, ret, 
-          everzero, stack
+          everzero, freed, stack
 
 (* define statement *)
 CurOp(t) == Prog[t][ip[t]]
@@ -109,7 +118,7 @@ CurOp(t) == Prog[t][ip[t]]
 VARIABLES d, v, wk, dl, rdy, enq, still
 
 vars == << pc, value, waited, cwaiters, lockh, nww, sem, now, ip, ret, 
-           everzero, stack, d, v, wk, dl, rdy, enq, still >>
+           everzero, freed, stack, d, v, wk, dl, rdy, enq, still >>
 
 ProcSet == (Threads)
 
@@ -124,6 +133,7 @@ Init == (* Global variables *)
         /\ ip = [t \in Threads |-> 1]
         /\ ret = [t \in Threads |-> -1]
         /\ everzero = (V0 = 0)
+        /\ freed = FALSE
         (* Procedure add *)
         /\ d = [ self \in ProcSet |-> defaultInitValue]
         /\ v = [ self \in ProcSet |-> 0]
@@ -141,15 +151,15 @@ ca_1_lk(self) == /\ pc[self] = "ca_1_lk"
                  /\ lockh' = self
                  /\ pc' = [pc EXCEPT ![self] = "ca_2_ld"]
                  /\ UNCHANGED << value, waited, cwaiters, nww, sem, now, ip, 
-                                 ret, everzero, stack, d, v, wk, dl, rdy, enq, 
-                                 still >>
+                                 ret, everzero, freed, stack, d, v, wk, dl, 
+                                 rdy, enq, still >>
 
 ca_2_ld(self) == /\ pc[self] = "ca_2_ld"
                  /\ v' = [v EXCEPT ![self] = value]
                  /\ pc' = [pc EXCEPT ![self] = "ca_3_cas"]
                  /\ UNCHANGED << value, waited, cwaiters, lockh, nww, sem, now, 
-                                 ip, ret, everzero, stack, d, wk, dl, rdy, enq, 
-                                 still >>
+                                 ip, ret, everzero, freed, stack, d, wk, dl, 
+                                 rdy, enq, still >>
 
 ca_3_cas(self) == /\ pc[self] = "ca_3_cas"
                   /\ IF value = v[self]
@@ -160,23 +170,24 @@ ca_3_cas(self) == /\ pc[self] = "ca_3_cas"
                         ELSE /\ pc' = [pc EXCEPT ![self] = "ca_2_ld"]
                              /\ UNCHANGED << value, everzero, v >>
                   /\ UNCHANGED << waited, cwaiters, lockh, nww, sem, now, ip, 
-                                  ret, stack, d, wk, dl, rdy, enq, still >>
+                                  ret, freed, stack, d, wk, dl, rdy, enq, 
+                                  still >>
 
 ca_4_l(self) == /\ pc[self] = "ca_4_l"
                 /\ IF d[self] > 0 /\ v[self] = d[self]
                       THEN /\ pc' = [pc EXCEPT ![self] = "ca_4_ld"]
                       ELSE /\ pc' = [pc EXCEPT ![self] = "ca_5_l"]
                 /\ UNCHANGED << value, waited, cwaiters, lockh, nww, sem, now, 
-                                ip, ret, everzero, stack, d, v, wk, dl, rdy, 
-                                enq, still >>
+                                ip, ret, everzero, freed, stack, d, v, wk, dl, 
+                                rdy, enq, still >>
 
 ca_4_ld(self) == /\ pc[self] = "ca_4_ld"
                  /\ Assert(waited = 0, 
-                           "Failure of assertion at line 40, column 14.")
+                           "Failure of assertion at line 41, column 14.")
                  /\ pc' = [pc EXCEPT ![self] = "ca_5_l"]
                  /\ UNCHANGED << value, waited, cwaiters, lockh, nww, sem, now, 
-                                 ip, ret, everzero, stack, d, v, wk, dl, rdy, 
-                                 enq, still >>
+                                 ip, ret, everzero, freed, stack, d, v, wk, dl, 
+                                 rdy, enq, still >>
 
 ca_5_l(self) == /\ pc[self] = "ca_5_l"
                 /\ IF v[self] # 0 \/ cwaiters = <<>>
@@ -186,21 +197,22 @@ ca_5_l(self) == /\ pc[self] = "ca_5_l"
                            /\ cwaiters' = Tail(cwaiters)
                            /\ pc' = [pc EXCEPT ![self] = "ca_5_st"]
                 /\ UNCHANGED << value, waited, lockh, nww, sem, now, ip, ret, 
-                                everzero, stack, d, v, dl, rdy, enq, still >>
+                                everzero, freed, stack, d, v, dl, rdy, enq, 
+                                still >>
 
 ca_5_st(self) == /\ pc[self] = "ca_5_st"
                  /\ nww' = [nww EXCEPT ![wk[self]] = 0]
                  /\ pc' = [pc EXCEPT ![self] = "ca_6_v"]
                  /\ UNCHANGED << value, waited, cwaiters, lockh, sem, now, ip, 
-                                 ret, everzero, stack, d, v, wk, dl, rdy, enq, 
-                                 still >>
+                                 ret, everzero, freed, stack, d, v, wk, dl, 
+                                 rdy, enq, still >>
 
 ca_6_v(self) == /\ pc[self] = "ca_6_v"
                 /\ sem' = [sem EXCEPT ![wk[self]] = sem[wk[self]] + 1]
                 /\ pc' = [pc EXCEPT ![self] = "ca_5_l"]
                 /\ UNCHANGED << value, waited, cwaiters, lockh, nww, now, ip, 
-                                ret, everzero, stack, d, v, wk, dl, rdy, enq, 
-                                still >>
+                                ret, everzero, freed, stack, d, v, wk, dl, rdy, 
+                                enq, still >>
 
 ca_7_ul(self) == /\ pc[self] = "ca_7_ul"
                  /\ lockh' = 0
@@ -211,7 +223,7 @@ ca_7_ul(self) == /\ pc[self] = "ca_7_ul"
                  /\ d' = [d EXCEPT ![self] = Head(stack[self]).d]
                  /\ stack' = [stack EXCEPT ![self] = Tail(stack[self])]
                  /\ UNCHANGED << value, waited, cwaiters, nww, sem, now, ip, 
-                                 everzero, dl, rdy, enq, still >>
+                                 everzero, freed, dl, rdy, enq, still >>
 
 add(self) == ca_1_lk(self) \/ ca_2_ld(self) \/ ca_3_cas(self)
                 \/ ca_4_l(self) \/ ca_4_ld(self) \/ ca_5_l(self)
@@ -221,8 +233,8 @@ cr_1_st(self) == /\ pc[self] = "cr_1_st"
                  /\ waited' = 1
                  /\ pc' = [pc EXCEPT ![self] = "cr_2_ld"]
                  /\ UNCHANGED << value, cwaiters, lockh, nww, sem, now, ip, 
-                                 ret, everzero, stack, d, v, wk, dl, rdy, enq, 
-                                 still >>
+                                 ret, everzero, freed, stack, d, v, wk, dl, 
+                                 rdy, enq, still >>
 
 cr_2_ld(self) == /\ pc[self] = "cr_2_ld"
                  /\ IF value = 0
@@ -236,22 +248,22 @@ cr_2_ld(self) == /\ pc[self] = "cr_2_ld"
                        ELSE /\ pc' = [pc EXCEPT ![self] = "wn_1_st"]
                             /\ UNCHANGED << ret, stack, dl, rdy, enq, still >>
                  /\ UNCHANGED << value, waited, cwaiters, lockh, nww, sem, now, 
-                                 ip, everzero, d, v, wk >>
+                                 ip, everzero, freed, d, v, wk >>
 
 wn_1_st(self) == /\ pc[self] = "wn_1_st"
                  /\ nww' = [nww EXCEPT ![self] = 0]
                  /\ pc' = [pc EXCEPT ![self] = "ce_1_lk"]
                  /\ UNCHANGED << value, waited, cwaiters, lockh, sem, now, ip, 
-                                 ret, everzero, stack, d, v, wk, dl, rdy, enq, 
-                                 still >>
+                                 ret, everzero, freed, stack, d, v, wk, dl, 
+                                 rdy, enq, still >>
 
 ce_1_lk(self) == /\ pc[self] = "ce_1_lk"
                  /\ lockh = 0
                  /\ lockh' = self
                  /\ pc' = [pc EXCEPT ![self] = "ce_2_ld"]
                  /\ UNCHANGED << value, waited, cwaiters, nww, sem, now, ip, 
-                                 ret, everzero, stack, d, v, wk, dl, rdy, enq, 
-                                 still >>
+                                 ret, everzero, freed, stack, d, v, wk, dl, 
+                                 rdy, enq, still >>
 
 ce_2_ld(self) == /\ pc[self] = "ce_2_ld"
                  /\ enq' = [enq EXCEPT ![self] = value # 0]
@@ -261,36 +273,37 @@ ce_2_ld(self) == /\ pc[self] = "ce_2_ld"
                             /\ UNCHANGED cwaiters
                  /\ pc' = [pc EXCEPT ![self] = "ce_3_st"]
                  /\ UNCHANGED << value, waited, lockh, nww, sem, now, ip, ret, 
-                                 everzero, stack, d, v, wk, dl, rdy, still >>
+                                 everzero, freed, stack, d, v, wk, dl, rdy, 
+                                 still >>
 
 ce_3_st(self) == /\ pc[self] = "ce_3_st"
                  /\ nww' = [nww EXCEPT ![self] = IF enq[self] THEN 1 ELSE 0]
                  /\ pc' = [pc EXCEPT ![self] = "ce_4_ul"]
                  /\ UNCHANGED << value, waited, cwaiters, lockh, sem, now, ip, 
-                                 ret, everzero, stack, d, v, wk, dl, rdy, enq, 
-                                 still >>
+                                 ret, everzero, freed, stack, d, v, wk, dl, 
+                                 rdy, enq, still >>
 
 ce_4_ul(self) == /\ pc[self] = "ce_4_ul"
                  /\ lockh' = 0
                  /\ pc' = [pc EXCEPT ![self] = "wr_1_st"]
                  /\ UNCHANGED << value, waited, cwaiters, nww, sem, now, ip, 
-                                 ret, everzero, stack, d, v, wk, dl, rdy, enq, 
-                                 still >>
+                                 ret, everzero, freed, stack, d, v, wk, dl, 
+                                 rdy, enq, still >>
 
 wr_1_st(self) == /\ pc[self] = "wr_1_st"
                  /\ waited' = 1
                  /\ pc' = [pc EXCEPT ![self] = "wr_2_ld"]
                  /\ UNCHANGED << value, cwaiters, lockh, nww, sem, now, ip, 
-                                 ret, everzero, stack, d, v, wk, dl, rdy, enq, 
-                                 still >>
+                                 ret, everzero, freed, stack, d, v, wk, dl, 
+                                 rdy, enq, still >>
 
 wr_2_ld(self) == /\ pc[self] = "wr_2_ld"
                  /\ IF value = 0
                        THEN /\ pc' = [pc EXCEPT ![self] = "cd_1_lk"]
                        ELSE /\ pc' = [pc EXCEPT ![self] = "wn_7_pd"]
                  /\ UNCHANGED << value, waited, cwaiters, lockh, nww, sem, now, 
-                                 ip, ret, everzero, stack, d, v, wk, dl, rdy, 
-                                 enq, still >>
+                                 ip, ret, everzero, freed, stack, d, v, wk, dl, 
+                                 rdy, enq, still >>
 
 wn_7_pd(self) == /\ pc[self] = "wn_7_pd"
                  /\ sem[self] > 0 \/ Expired(dl[self], now)
@@ -300,23 +313,23 @@ wn_7_pd(self) == /\ pc[self] = "wn_7_pd"
                        ELSE /\ pc' = [pc EXCEPT ![self] = "cd_1_lk"]
                             /\ sem' = sem
                  /\ UNCHANGED << value, waited, cwaiters, lockh, nww, now, ip, 
-                                 ret, everzero, stack, d, v, wk, dl, rdy, enq, 
-                                 still >>
+                                 ret, everzero, freed, stack, d, v, wk, dl, 
+                                 rdy, enq, still >>
 
 cd_1_lk(self) == /\ pc[self] = "cd_1_lk"
                  /\ lockh = 0
                  /\ lockh' = self
                  /\ pc' = [pc EXCEPT ![self] = "cd_2_ld"]
                  /\ UNCHANGED << value, waited, cwaiters, nww, sem, now, ip, 
-                                 ret, everzero, stack, d, v, wk, dl, rdy, enq, 
-                                 still >>
+                                 ret, everzero, freed, stack, d, v, wk, dl, 
+                                 rdy, enq, still >>
 
 cd_2_ld(self) == /\ pc[self] = "cd_2_ld"
                  /\ still' = [still EXCEPT ![self] = value # 0]
                  /\ pc' = [pc EXCEPT ![self] = "cd_3_ld"]
                  /\ UNCHANGED << value, waited, cwaiters, lockh, nww, sem, now, 
-                                 ip, ret, everzero, stack, d, v, wk, dl, rdy, 
-                                 enq >>
+                                 ip, ret, everzero, freed, stack, d, v, wk, dl, 
+                                 rdy, enq >>
 
 cd_3_ld(self) == /\ pc[self] = "cd_3_ld"
                  /\ IF nww[self] = 0
@@ -325,15 +338,15 @@ cd_3_ld(self) == /\ pc[self] = "cd_3_ld"
                        ELSE /\ cwaiters' = Without(cwaiters, self)
                             /\ pc' = [pc EXCEPT ![self] = "cd_4_st"]
                  /\ UNCHANGED << value, waited, lockh, nww, sem, now, ip, ret, 
-                                 everzero, stack, d, v, wk, dl, rdy, enq, 
-                                 still >>
+                                 everzero, freed, stack, d, v, wk, dl, rdy, 
+                                 enq, still >>
 
 cd_4_st(self) == /\ pc[self] = "cd_4_st"
                  /\ nww' = [nww EXCEPT ![self] = 0]
                  /\ pc' = [pc EXCEPT ![self] = "cd_5_ul"]
                  /\ UNCHANGED << value, waited, cwaiters, lockh, sem, now, ip, 
-                                 ret, everzero, stack, d, v, wk, dl, rdy, enq, 
-                                 still >>
+                                 ret, everzero, freed, stack, d, v, wk, dl, 
+                                 rdy, enq, still >>
 
 cd_5_ul(self) == /\ pc[self] = "cd_5_ul"
                  /\ lockh' = 0
@@ -348,7 +361,7 @@ cd_5_ul(self) == /\ pc[self] = "cd_5_ul"
                        ELSE /\ pc' = [pc EXCEPT ![self] = "cw_1_ld"]
                             /\ UNCHANGED << ret, stack, dl, rdy, enq, still >>
                  /\ UNCHANGED << value, waited, cwaiters, nww, sem, now, ip, 
-                                 everzero, d, v, wk >>
+                                 everzero, freed, d, v, wk >>
 
 cw_1_ld(self) == /\ pc[self] = "cw_1_ld"
                  /\ ret' = [ret EXCEPT ![self] = value]
@@ -359,7 +372,7 @@ cw_1_ld(self) == /\ pc[self] = "cw_1_ld"
                  /\ dl' = [dl EXCEPT ![self] = Head(stack[self]).dl]
                  /\ stack' = [stack EXCEPT ![self] = Tail(stack[self])]
                  /\ UNCHANGED << value, waited, cwaiters, lockh, nww, sem, now, 
-                                 ip, everzero, d, v, wk >>
+                                 ip, everzero, freed, d, v, wk >>
 
 cwait(self) == cr_1_st(self) \/ cr_2_ld(self) \/ wn_1_st(self)
                   \/ ce_1_lk(self) \/ ce_2_ld(self) \/ ce_3_st(self)
@@ -373,16 +386,37 @@ cv_1_ld(self) == /\ pc[self] = "cv_1_ld"
                  /\ pc' = [pc EXCEPT ![self] = Head(stack[self]).pc]
                  /\ stack' = [stack EXCEPT ![self] = Tail(stack[self])]
                  /\ UNCHANGED << value, waited, cwaiters, lockh, nww, sem, now, 
-                                 ip, everzero, d, v, wk, dl, rdy, enq, still >>
+                                 ip, everzero, freed, d, v, wk, dl, rdy, enq, 
+                                 still >>
 
 cvalue(self) == cv_1_ld(self)
+
+cf_1_lk(self) == /\ pc[self] = "cf_1_lk"
+                 /\ lockh = 0
+                 /\ lockh' = self
+                 /\ pc' = [pc EXCEPT ![self] = "cf_2_ul"]
+                 /\ UNCHANGED << value, waited, cwaiters, nww, sem, now, ip, 
+                                 ret, everzero, freed, stack, d, v, wk, dl, 
+                                 rdy, enq, still >>
+
+cf_2_ul(self) == /\ pc[self] = "cf_2_ul"
+                 /\ lockh' = 0
+                 /\ freed' = TRUE
+                 /\ ret' = [ret EXCEPT ![self] = 0]
+                 /\ pc' = [pc EXCEPT ![self] = Head(stack[self]).pc]
+                 /\ stack' = [stack EXCEPT ![self] = Tail(stack[self])]
+                 /\ UNCHANGED << value, waited, cwaiters, nww, sem, now, ip, 
+                                 everzero, d, v, wk, dl, rdy, enq, still >>
+
+cfree(self) == cf_1_lk(self) \/ cf_2_ul(self)
 
 cn_1_st(self) == /\ pc[self] = "cn_1_st"
                  /\ ret' = [ret EXCEPT ![self] = 1]
                  /\ pc' = [pc EXCEPT ![self] = Head(stack[self]).pc]
                  /\ stack' = [stack EXCEPT ![self] = Tail(stack[self])]
                  /\ UNCHANGED << value, waited, cwaiters, lockh, nww, sem, now, 
-                                 ip, everzero, d, v, wk, dl, rdy, enq, still >>
+                                 ip, everzero, freed, d, v, wk, dl, rdy, enq, 
+                                 still >>
 
 cnew(self) == cn_1_st(self)
 
@@ -436,34 +470,44 @@ c0(self) == /\ pc[self] = "c0"
                                                                                    rdy, 
                                                                                    enq, 
                                                                                    still >>
-                                                              ELSE /\ IF CurOp(self).op = "wait"
+                                                              ELSE /\ IF CurOp(self).op = "free"
                                                                          THEN /\ ip' = [ip EXCEPT ![self] = ip[self] + 1]
-                                                                              /\ /\ dl' = [dl EXCEPT ![self] = CurOp(self).dl]
-                                                                                 /\ stack' = [stack EXCEPT ![self] = << [ procedure |->  "cwait",
-                                                                                                                          pc        |->  "c0",
-                                                                                                                          rdy       |->  rdy[self],
-                                                                                                                          enq       |->  enq[self],
-                                                                                                                          still     |->  still[self],
-                                                                                                                          dl        |->  dl[self] ] >>
-                                                                                                                      \o stack[self]]
-                                                                              /\ rdy' = [rdy EXCEPT ![self] = FALSE]
-                                                                              /\ enq' = [enq EXCEPT ![self] = FALSE]
-                                                                              /\ still' = [still EXCEPT ![self] = FALSE]
-                                                                              /\ pc' = [pc EXCEPT ![self] = "cr_1_st"]
-                                                                         ELSE /\ ip' = [ip EXCEPT ![self] = ip[self] + 1]
-                                                                              /\ pc' = [pc EXCEPT ![self] = "c0"]
-                                                                              /\ UNCHANGED << stack, 
-                                                                                              dl, 
+                                                                              /\ stack' = [stack EXCEPT ![self] = << [ procedure |->  "cfree",
+                                                                                                                       pc        |->  "c0" ] >>
+                                                                                                                   \o stack[self]]
+                                                                              /\ pc' = [pc EXCEPT ![self] = "cf_1_lk"]
+                                                                              /\ UNCHANGED << dl, 
                                                                                               rdy, 
                                                                                               enq, 
                                                                                               still >>
+                                                                         ELSE /\ IF CurOp(self).op = "wait"
+                                                                                    THEN /\ ip' = [ip EXCEPT ![self] = ip[self] + 1]
+                                                                                         /\ /\ dl' = [dl EXCEPT ![self] = CurOp(self).dl]
+                                                                                            /\ stack' = [stack EXCEPT ![self] = << [ procedure |->  "cwait",
+                                                                                                                                     pc        |->  "c0",
+                                                                                                                                     rdy       |->  rdy[self],
+                                                                                                                                     enq       |->  enq[self],
+                                                                                                                                     still     |->  still[self],
+                                                                                                                                     dl        |->  dl[self] ] >>
+                                                                                                                                 \o stack[self]]
+                                                                                         /\ rdy' = [rdy EXCEPT ![self] = FALSE]
+                                                                                         /\ enq' = [enq EXCEPT ![self] = FALSE]
+                                                                                         /\ still' = [still EXCEPT ![self] = FALSE]
+                                                                                         /\ pc' = [pc EXCEPT ![self] = "cr_1_st"]
+                                                                                    ELSE /\ ip' = [ip EXCEPT ![self] = ip[self] + 1]
+                                                                                         /\ pc' = [pc EXCEPT ![self] = "c0"]
+                                                                                         /\ UNCHANGED << stack, 
+                                                                                                         dl, 
+                                                                                                         rdy, 
+                                                                                                         enq, 
+                                                                                                         still >>
                                                                    /\ ret' = ret
                                              /\ UNCHANGED << d, v, wk >>
                   ELSE /\ pc' = [pc EXCEPT ![self] = "Done"]
                        /\ UNCHANGED << ip, ret, stack, d, v, wk, dl, rdy, enq, 
                                        still >>
             /\ UNCHANGED << value, waited, cwaiters, lockh, nww, sem, now, 
-                            everzero >>
+                            everzero, freed >>
 
 thr(self) == c0(self)
 
@@ -472,7 +516,7 @@ Terminating == /\ \A self \in ProcSet: pc[self] = "Done"
                /\ UNCHANGED vars
 
 Next == (\E self \in ProcSet:  \/ add(self) \/ cwait(self) \/ cvalue(self)
-                               \/ cnew(self))
+                               \/ cfree(self) \/ cnew(self))
            \/ (\E self \in Threads: thr(self))
            \/ Terminating
 
@@ -483,11 +527,11 @@ Termination == <>(\A self \in ProcSet: pc[self] = "Done")
 \* END TRANSLATION
 
 LocalLabels == {"ca_4_l", "ca_5_l"}
-Step(self) == add(self) \/ cwait(self) \/ cvalue(self) \/ cnew(self) \/ thr(self)
+Step(self) == add(self) \/ cwait(self) \/ cvalue(self) \/ cfree(self) \/ cnew(self) \/ thr(self)
 TickUseful == \E u \in Threads : pc[u] = "wn_7_pd" /\ dl[u] > now
 Tick == /\ now < MaxNow /\ TickUseful
         /\ now' = now + 1
-        /\ UNCHANGED <<pc, value, waited, cwaiters, lockh, nww, sem, ip, ret, everzero, stack, d, v, wk, dl, rdy, enq, still>>
+        /\ UNCHANGED <<pc, value, waited, cwaiters, lockh, nww, sem, ip, ret, everzero, freed, stack, d, v, wk, dl, rdy, enq, still>>
 LocalPending == {u \in Threads : pc[u] \in LocalLabels}
 NextU == IF LocalPending # {} THEN Step(CHOOSE u \in LocalPending : TRUE)
          ELSE (\E self \in Threads : Step(self)) \/ Tick
@@ -498,13 +542,17 @@ AllDone == \A u \in Threads : pc[u] = "Done"
 NeverNegative == value >= 0
 WaitersOnlyIfNonZero == (value = 0 /\ lockh = 0) => cwaiters = <<>>      \* everybody waiting at zero has been released
 QueuedAreWaiting == (lockh = 0) => \A i \in 1..Len(cwaiters) : nww[cwaiters[i]] = 1
-BadSet == {x \in {"NeverNegative", "WaitersOnlyIfNonZero", "QueuedAreWaiting"} :
+\* C13: once the counter is freed no thread is still inside one of its operations
+InCounter(u) == \E j \in 1..Len(stack[u]) : stack[u][j].procedure \in {"add", "cwait", "cvalue"}
+NoUseAfterFree == freed => \A u \in Threads : ~InCounter(u)
+BadSet == {x \in {"NeverNegative", "WaitersOnlyIfNonZero", "QueuedAreWaiting", "NoUseAfterFree"} :
+             \/ (x = "NoUseAfterFree" /\ ~NoUseAfterFree)
              \/ (x = "NeverNegative" /\ ~NeverNegative) \/ (x = "WaitersOnlyIfNonZero" /\ ~WaitersOnlyIfNonZero)
              \/ (x = "QueuedAreWaiting" /\ ~QueuedAreWaiting)}
 
 Moved(a) == pc[a] # pc'[a] \/ ip[a] # ip'[a]
 Actor == IF \E a \in Threads : Moved(a) THEN CHOOSE a \in Threads : Moved(a) ELSE 0
-Obs == [value |-> value', waited |-> waited', q |-> cwaiters', lockh |-> lockh', nww |-> nww', sem |-> sem', now |-> now', ret |-> ret',
+Obs == [value |-> IF freed' THEN 0 ELSE value', waited |-> IF freed' THEN 0 ELSE waited', q |-> cwaiters', lockh |-> lockh', nww |-> nww', sem |-> sem', now |-> now', ret |-> ret',
         bad |-> BadSet', done |-> AllDone']
 Edge == (vars # vars') =>
           PrintT(ToJson(<<"E", TLCFP(vars), TLCFP(<<vars, 1>>), TLCFP(vars'), TLCFP(<<vars', 1>>),
